@@ -433,6 +433,10 @@ def observe(case: dict) -> dict:
         ob["src_run_error"] = before_run if isinstance(before_run, str) else next(r for r in before_run if isinstance(r, str))
     exc = None
     ir_info = None
+    from onnxscript._internal import _verif
+
+    if _verif.ENABLED:
+        del _verif.traces[:]
     if entry == "ir":
         im = obj
         try:
@@ -459,6 +463,11 @@ def observe(case: dict) -> dict:
             version_converter.convert_version(r, t, fallback=fb)
         except Exception as e:  # noqa: BLE001
             exc = f"{type(e).__name__}: {str(e)[:120]}"
+    if _verif.ENABLED:
+        # the recorded execution of _VersionConverter.visit_model for this call (validated by TLC against VersionApply.tla)
+        _verif.abort_all()
+        ob["vctraces"] = [tr for tr in _verif.traces if tr["kind"] == "vconv" and sum(len(g["nodes"]) for g in tr["meta"]["model"]["graphs"]) <= 80][:2]
+        del _verif.traces[:]
     ob["exc"] = exc
     ob["ir"] = ir_info
     ob["declared"] = _default_opset(r.opset_import)
@@ -702,6 +711,16 @@ def run(ctx: core.Ctx):
     rng.shuffle(order)  # spread expensive cases over the pool
     results = core.pmap(_work, [cases[i] for i in order], chunksize=16)
     results.sort(key=lambda r: json.dumps(case_of(r[0]), sort_keys=True))
+    # direction B: the recorded executions of the converter for these configurations, the repository's tests and hand-written
+    # models, executed by TLC on VersionApply.tla
+    from . import foldtrace, vctrace
+
+    case_traces = []
+    for rec, ob, err in results:
+        for tr in (ob or {}).pop("vctraces", None) or []:
+            tr["id"] = f"case/{len(case_traces)}"
+            case_traces.append(tr)
+    vctrace.stage(ctx, foldtrace.dedup(case_traces, 3000 if ctx.quick else 40000, ctx.seed), real_adapters)
     known_ids = {k["id"] for k in ctx.known}
     nontriv = set()
     discarded = 0
@@ -751,7 +770,7 @@ def run(ctx: core.Ctx):
     for _, full, what, finding in sorted(reports, key=lambda r: r[0]):
         ctx.report(full, what, finding=finding)
     ctx.set("distinct_nontrivial", len(nontriv))
-    ctx.set("traces_validated_against_impl", ctx.coverage.get("evaluations", 0))
+    ctx.add("traces_validated_against_impl", ctx.coverage.get("evaluations", 0))
     ctx.set("model_impl_mismatches", mismatches)
     ctx.set("source_not_runnable_discarded", discarded)
     ctx.set("violations_explained_by_deviation", per_dev)
